@@ -122,7 +122,7 @@ fn split_inside_element(boundaries: &[usize], steps: &[RStep], len: usize) -> bo
     false
 }
 
-fn tag_boundaries(obs: &[Obs], len: usize) -> Vec<usize> {
+pub fn tag_boundaries(obs: &[Obs], len: usize) -> Vec<usize> {
     let mut v: Vec<usize> = obs
         .iter()
         .filter_map(|o| match o {
@@ -136,6 +136,68 @@ fn tag_boundaries(obs: &[Obs], len: usize) -> Vec<usize> {
     v.sort();
     v.dedup();
     v
+}
+
+/// a source script that delivers up to some of the given tag boundaries in small pieces and then reports a temporary end of file
+pub fn gen_pause_script(t: &mut Tape, bounds: &[usize]) -> (Vec<RStep>, usize) {
+    let mut steps = Vec::new();
+    let mut pos = 0usize;
+    let mut pauses = 0;
+    for &bd in bounds {
+        if bd > pos && t.chance(1, 2) {
+            let mut left = bd - pos;
+            while left > 0 {
+                let n = (1 + t.below(9)).min(left);
+                steps.push(RStep::Chunk(n));
+                left -= n;
+            }
+            steps.push(RStep::Pause);
+            if t.chance(1, 4) {
+                steps.push(RStep::Pause);
+            }
+            pauses += 1;
+            pos = bd;
+        }
+    }
+    (steps, pauses)
+}
+
+/// read through a scripted source, calling next() again after None for as long as the source still holds data or script steps
+pub fn read_paused<T: crate::dynspec::Spec>(bytes: &[u8], steps: Vec<RStep>, cfg: &ReadCfg) -> Result<(Vec<Obs>, usize), String> {
+    let mut src = ScriptRead::new(bytes, steps);
+    let mut rd = match Rd::<T, _>::new(&mut src, cfg) {
+        Ok(r) => r,
+        Err(p) => return Err(format!("constructor panicked: {}", p)),
+    };
+    let mut obs: Vec<Obs> = Vec::new();
+    let mut nones = 0;
+    let mut calls = 0;
+    loop {
+        calls += 1;
+        if calls > 8 * item_bound(bytes.len()) {
+            obs.push(Obs::Runaway(calls));
+            break;
+        }
+        match rd.next() {
+            Step::Item(f, o) => obs.push(Obs::Item(f, o)),
+            Step::Err(e) => {
+                obs.push(Obs::Err(e));
+                break;
+            }
+            Step::Panic(p) => {
+                obs.push(Obs::Panic(p));
+                break;
+            }
+            Step::Done => {
+                nones += 1;
+                let s = rd.it.get_ref();
+                if s.all_delivered() && s.script_done() {
+                    break;
+                }
+            }
+        }
+    }
+    Ok((obs, nones))
 }
 
 fn stage_random(i: &Input, c: &mut Case) -> Result<(), String> {
